@@ -8,11 +8,11 @@
     * line numbers are 1 + the number of line feeds consumed, whatever the chunking; columns restart at 1 after a
       line feed and grow by one per byte on tab-free text; the position reached is independent of how the text is
       cut into chunks as long as no chunk ends with a tab (the `prevWasTab` rule, pinned by the repo's own test).
-  NOT proved (stated below as `tokens_invariant_statement`, open): invariance under insertion at EVERY token gap
-  of a text.  That statement needs per-scanner maximal-munch stability lemmas; it is covered by the whole-compiler
-  correspondence of checks/c19.py only.  The parser as a whole is not modelled.
+    * `tokens_invariant`: invariance of the significant tokens under insertion of separator trivia at EVERY token gap
+      of a text (per-scanner maximal-munch stability, Proofs/LexStable.lean).
+  The parser as a whole is not modelled (it receives comment tokens too; checks/c19.py covers it on the real compiler).
 -/
-import FerretVerif.Proofs.LexTrivia
+import FerretVerif.Proofs.LexStable
 import FerretVerif.Gen.LexTables
 
 namespace FerretVerif.C19
@@ -53,39 +53,31 @@ theorem tab_swallow_witness :
 
 /-! ### the full statement (open) -/
 
-/-- trivia that may be put in front of a token: empty, or starting with a white-space byte -/
-def SepTrivia (t : List Byte) : Prop := t = [] ∨ ∃ w r, t = w :: r ∧ isSpace w = true ∧ Trivia t
+instance : Decidable (opsNoSpace T) := by unfold opsNoSpace noSpace; infer_instance
 
-/-- re-runs the lexer on `s` and re-emits its chunks, putting `tv off` in front of every chunk that yields a
-    significant token or a lexer error (`off` = byte offset of the chunk in `s`) -/
-def weave (T : Tables) (tv : Nat → List Byte) : Nat → Nat → List Byte → List Byte
-  | 0, _, s => s
-  | _, _, [] => []
-  | fuel + 1, off, s@(_ :: _) =>
-    let st := step T s
-    let isSig : Bool := match st.tok with
-      | some (k, _) => k != .comment
-      | none => st.err
-    (if isSig then tv off else []) ++ s.take st.n ++ weave T tv fuel (off + st.n) (s.drop st.n)
+theorem ops_have_no_space : opsNoSpace T := by decide +kernel
 
-/-- no unterminated string / byte-literal / block-comment opener: such an opener could be closed by an inserted comment -/
-def cleanRun (T : Tables) : Nat → List Byte → Bool
-  | 0, _ => true
-  | _, [] => true
-  | fuel + 1, s@(c :: r) =>
-    let st := step T s
-    let dirty := (st.err && (c = 34 || c = 39)) || (st.tok == some (.op, [47]) && r.head? == some 42)
-    !dirty && cleanRun T fuel (s.drop st.n)
+/-- C19 at the token level, full strength: take any text none of whose chunks starts with an unclosed string / byte-literal /
+    block-comment opener (`cleanRun`), and put ANY separator trivia — nothing, or white space followed by any mix of white
+    space, block comments and newline-terminated line comments — in front of ANY of its significant chunks (`weave` re-emits
+    the text chunk by chunk, `tv off` chooses what goes in front of the chunk at byte offset `off`).  The significant tokens
+    (kinds and values) the parser receives are unchanged.  Proved in Proofs/LexStable.lean from per-scanner maximal-munch
+    stability lemmas (`step_kept`: what a step consumes and produces does not change when white-space-led material is
+    inserted behind the bytes it consumes). -/
+theorem tokens_invariant (s : List Byte) (tv : Nat → List Byte) (hclean : cleanRun T s.length s = true)
+    (htv : ∀ i, SepTrivia (tv i)) : sigs T (weave T tv s.length 0 s) = sigs T s :=
+  weave_sigs T tables_ok ops_have_no_space tv htv s.length 0 s (Nat.le_refl _) hclean
 
-/-- C19 at the token level, full strength: inserting separator trivia at any token gaps of a clean text leaves the
-    significant tokens unchanged.  OPEN — not proved here; exercised by checks/c19.py on the real compiler. -/
-def tokens_invariant_statement : Prop :=
-  ∀ (s : List Byte) (tv : Nat → List Byte), cleanRun T s.length s = true → (∀ i, SepTrivia (tv i)) →
-    sigs T (weave T tv s.length 0 s) = sigs T s
+/-- why the hypothesis is there: behind an unclosed opener inserted trivia is not inert — `"a` lexes as an error and the
+    identifier `a`, while `"a /*"*/` contains a string -/
+theorem unclosed_opener_witness :
+    cleanRun T 2 [34, 97] = false ∧ sigs T [34, 97] ≠ sigs T ([34, 97] ++ [32, 47, 42, 34, 42, 47]) := by decide +kernel
 
--- the statement is not vacuous and holds on a sample (a test, labelled as a test): `a-1` with ` /*c*/ ` before each token
+-- the hypotheses are inhabited: `a-1` is clean, and ` /*c*/ ` is separator trivia
 example : cleanRun T 3 [97, 45, 49] = true := by decide +kernel
 example : sigs T (weave T (fun _ => [32, 47, 42, 99, 42, 47, 32]) 3 0 [97, 45, 49]) = sigs T [97, 45, 49] := by decide +kernel
+example : SepTrivia [32, 47, 42, 99, 42, 47, 32] :=
+  .inr ⟨32, _, rfl, by decide, .ws _ _ (by decide) (.block [99] [32] (by decide) (.ws _ _ (by decide) .nil))⟩
 -- trivia examples
 example : Trivia [32, 9, 10] := .ws _ _ (by decide) (.ws _ _ (by decide) (.ws _ _ (by decide) .nil))
 example : Trivia ([47, 42] ++ ([120] ++ [42, 47]) ++ []) := .block [120] [] (by decide) .nil
